@@ -1,92 +1,141 @@
-"""C06 (continued): further contracts, written against the conventions of contracts/C06.py.
+"""C06 (continued): type names, type inference, cimvalue() for the non-integer types, and the STRING side of CIMDateTime.
 
-Shared definitions can be imported from the module contracts_C06 (the file contracts/C06.py while it is being loaded)."""
-from pyvc.contract import Contract, Raises, LoopSpec
+Written against the conventions of contracts/C06.py (which covers CIMInt.__new__ and cimvalue() for the integer types).
+
+What is here
+  1. cimtype / type_from_name / _infer_type / _infer_is_array: the documented type name (class) for every kind of value,
+     the documented TypeError / ValueError cases.
+  2. cimvalue(value, type) for None, 'boolean', 'string', 'char16', 'datetime', 'reference', arrays and an inferred type.
+  3. The DSP0004 datetime languages (5.2.4 timestamp / interval incl. the asterisk rules) transcribed as regexes and compared
+     by the solver with the two class-level patterns of CIMDateTime folded from the real source (LEMMAS).
+  4. CIMDateTime._to_int, .precision, .is_interval and CIMDateTime.__init__(str): one contract per DSP0004 shape (which
+     strings are intervals / timestamps, precision == index of the first asterisk, every DSP0004 interval string is
+     accepted, only ValueError).
+Floats are an uninterpreted sort of the engine: minutes_from_utc (true division), datetime/timedelta arithmetic and the
+real32/real64 constructors are not under contract here.
+
+REFUTED_ON_THE_UNCHANGED_TREE / REFUTED_LEMMAS_ON_THE_UNCHANGED_TREE are NOT loaded; `C06_DT_WITH_REFUTED=1 ./check C06 -v`
+loads them to reproduce the refutations."""
+import os as _os
+from pyvc.contract import Contract, Raises, LoopSpec   # noqa
 from pyvc.values import *   # noqa
 
 CONTRACTS = []
 CLASS_SPECS = {}
 LEMMAS = []
+REFUTED_ON_THE_UNCHANGED_TREE = []
 
 T = 'pywbem/_cim_types.py::'
 O = 'pywbem/_cim_obj.py::'
 
+# ================================================================ 1. type names
 CIM_CLASS_TYPE = {'Uint8': 'uint8', 'Uint16': 'uint16', 'Uint32': 'uint32', 'Uint64': 'uint64',
                   'Sint8': 'sint8', 'Sint16': 'sint16', 'Sint32': 'sint32', 'Sint64': 'sint64',
                   'Real32': 'real32', 'Real64': 'real64', 'CIMDateTime': 'datetime', 'Char16': 'char16'}
-for cls, name in CIM_CLASS_TYPE.items():
-    CONTRACTS.append(Contract(T + 'cimtype', label=cls, params={'obj': Ref(cls)},
-                              ensures=[('type-name', f'result == {name!r}')], raises={}))
+for _cls, _name in CIM_CLASS_TYPE.items():
+    CONTRACTS.append(Contract(T + 'cimtype', label=_cls, params={'obj': Ref(_cls)},
+                              ensures=[('type-name', f'result == {_name!r}')], raises={}))
 CONTRACTS.append(Contract(T + 'cimtype', label='bool', params={'obj': Bool},
                           ensures=[('type-name', "result == 'boolean'")], raises={}))
 CONTRACTS.append(Contract(T + 'cimtype', label='str', params={'obj': Str},
                           ensures=[('type-name', "result == 'string'")], raises={}))
 CONTRACTS.append(Contract(T + 'cimtype', label='python numbers and None', params={'obj': Union(Int, Float, NoneT)},
                           ensures=[('never-returns', 'False')], raises={'TypeError': Raises()}))
-CONTRACTS.append(Contract(T + 'cimtype', label='datetime objects', params={'obj': Union(Ref('datetime.datetime'), Ref('datetime.timedelta'))},
+CONTRACTS.append(Contract(T + 'cimtype', label='datetime objects',
+                          params={'obj': Union(Ref('datetime.datetime'), Ref('datetime.timedelta'))},
                           ensures=[('type-name', "result == 'datetime'")], raises={}))
-CONTRACTS.append(Contract(T + 'cimtype', label='CIM objects', params={'obj': Union(Ref('CIMInstanceName'), Ref('CIMInstance'), Ref('CIMClass'))},
-                          ensures=[('type-name', "result == ('reference' if isinstance(obj, CIMInstanceName) else 'string')")], raises={}))
-CONTRACTS.append(Contract(T + 'cimtype', label='other objects', params={'obj': Union(Ref('CIMClassName'), Ref('CIMProperty'), TupleOf(Int))},
+CONTRACTS.append(Contract(T + 'cimtype', label='CIM objects',
+                          params={'obj': Union(Ref('CIMInstanceName'), Ref('CIMInstance'), Ref('CIMClass'))},
+                          ensures=[('type-name', "result == ('reference' if isinstance(obj, CIMInstanceName) else 'string')")],
+                          raises={}))
+CONTRACTS.append(Contract(T + 'cimtype', label='other objects',
+                          params={'obj': Union(Ref('CIMClassName'), Ref('CIMProperty'), TupleOf(Int))},
                           ensures=[('never-returns', 'False')], raises={'TypeError': Raises()}))
 
-ELEM = Union(Ref('Uint8'), Ref('Sint64'), Ref('Real32'), Ref('CIMDateTime'), Ref('Char16'), Str, Bool, Ref('CIMInstanceName'), Ref('CIMInstance'))
-cimtype_elem = Contract(T + 'cimtype', returns=Str,
-                        requires=[('element-has-a-CIM-type', 'isinstance(obj, (CIMType, str, bool, CIMInstanceName, CIMInstance))')],
-                        ensures=[('type-name', "result == ('boolean' if isinstance(obj, bool) else 'reference' if isinstance(obj, CIMInstanceName) "
-                                  "else obj.cimtype if isinstance(obj, CIMType) else 'string')")],
-                        raises={}, notes='the scalar contracts of cimtype proved above')
-CONTRACTS.append(Contract(T + 'cimtype', label='array', params={'obj': ListOf(ELEM)},
-                          callees={'cimtype': cimtype_elem},
-                          ensures=[('type-of-the-first-element', "len(old(obj)) > 0 and result == cimtype(old(obj)[0])")],
-                          raises={'ValueError': Raises(post=[('only-empty-array', 'len(old(obj)) == 0')])}))
+HAS_TYPE = '(CIMType, str, bool, CIMInstanceName, CIMInstance, CIMClass, datetime, timedelta)'
+
+
+def TYPE_OF(e):
+    """spec macro: the documented CIM type name of a scalar that has one"""
+    return (f"('boolean' if isinstance({e}, bool) else 'reference' if isinstance({e}, CIMInstanceName) "
+            f"else {e}.cimtype if isinstance({e}, CIMType) else 'datetime' if isinstance({e}, (datetime, timedelta)) else 'string')")
+
+
+ELEM = Union(Ref('Uint8'), Ref('Sint64'), Ref('Real32'), Ref('CIMDateTime'), Ref('Char16'), Str, Bool, Ref('CIMInstanceName'),
+             Ref('CIMInstance'), Int, Float)
+cimtype_scalar = Contract(
+    T + 'cimtype', returns=Str,
+    ensures=[('type-name', f'isinstance(obj, {HAS_TYPE}) and result == {TYPE_OF("obj")}')],
+    raises={'TypeError': Raises(post=[('only-without-a-CIM-type', f'not isinstance(obj, {HAS_TYPE})')])},
+    notes='cimtype() of a scalar, as proved by the scalar contracts above')
+CONTRACTS.append(Contract(
+    T + 'cimtype', label='array', params={'obj': ListOf(ELEM)}, callees={'cimtype': cimtype_scalar},
+    ensures=[('type-of-the-first-element', f"len(old(obj)) > 0 and result == {TYPE_OF('old(obj)[0]')}")],
+    raises={'ValueError': Raises(post=[('only-empty-array', 'len(old(obj)) == 0')]),
+            'TypeError': Raises(post=[('only-first-element-without-a-CIM-type',
+                                       f'len(old(obj)) > 0 and not isinstance(old(obj)[0], {HAS_TYPE})')])}))
 
 TYPE_CLASS = {'boolean': 'bool', 'string': 'str', 'char16': 'str', 'datetime': 'CIMDateTime', 'reference': 'CIMInstanceName',
               'uint8': 'Uint8', 'uint16': 'Uint16', 'uint32': 'Uint32', 'uint64': 'Uint64',
               'sint8': 'Sint8', 'sint16': 'Sint16', 'sint32': 'Sint32', 'sint64': 'Sint64',
               'real32': 'Real32', 'real64': 'Real64'}
+_NAMES = '(' + ', '.join(repr(n) for n in TYPE_CLASS) + ')'
 CONTRACTS.append(Contract(
     T + 'type_from_name', params={'type_name': Str},
-    ensures=[(f'{n}-gives-{c}', f'implies(type_name == {n!r}, issubclass(result, {c}) and issubclass({c}, result))') for n, c in TYPE_CLASS.items()] +
-            [('only-CIM-type-names', 'type_name in (' + ', '.join(repr(n) for n in TYPE_CLASS) + ')')],
-    raises={'ValueError': Raises(post=[('only-unknown-names', 'type_name not in (' + ', '.join(repr(n) for n in TYPE_CLASS) + ')')])}))
+    # `result is <class>` written as mutual issubclass (the engine has no identity of the builtin classes bool / str)
+    ensures=[(f'{n}-gives-{c}', f'implies(type_name == {n!r}, issubclass(result, {c}) and issubclass({c}, result))')
+             for n, c in TYPE_CLASS.items()] + [('only-CIM-type-names', f'type_name in {_NAMES}')],
+    raises={'ValueError': Raises(post=[('only-unknown-names', f'type_name not in {_NAMES}')])}))
 
-SCALAR = Union(Ref('Uint8'), Ref('Sint64'), Ref('Real32'), Ref('Real64'), Ref('CIMDateTime'), Ref('Char16'), Str, Bool, Ref('CIMInstanceName'),
-               Ref('CIMInstance'), Ref('CIMClass'), Ref('datetime.datetime'), Ref('datetime.timedelta'),
+SCALAR = Union(Ref('Uint8'), Ref('Sint64'), Ref('Real32'), Ref('Real64'), Ref('CIMDateTime'), Ref('Char16'), Str, Bool,
+               Ref('CIMInstanceName'), Ref('CIMInstance'), Ref('CIMClass'), Ref('datetime.datetime'), Ref('datetime.timedelta'),
                Int, Float, NoneT, Ref('CIMClassName'))
-HAS_TYPE = '(CIMType, str, bool, CIMInstanceName, CIMInstance, CIMClass)'
-
-
-def TYPE_OF(e):
-    return (f"('boolean' if isinstance({e}, bool) else 'reference' if isinstance({e}, CIMInstanceName) "
-            f"else {e}.cimtype if isinstance({e}, CIMType) else 'datetime' if isinstance({e}, (datetime, timedelta)) else 'string')")
-
-
 CONTRACTS.append(Contract(
     O + '_infer_type', label='scalar', params={'value': SCALAR, 'element_kind': Str, 'element_name': Str},
-    ensures=[('has-a-CIM-type', f'isinstance(value, {HAS_TYPE}) or isinstance(value, (datetime, timedelta))'),
+    ensures=[('has-a-CIM-type', f'isinstance(value, {HAS_TYPE})'),
              ('type-name', f'result == {TYPE_OF("value")}')],
-    raises={'ValueError': Raises(post=[('only-None-or-untyped', f'value is None or not (isinstance(value, {HAS_TYPE}) or isinstance(value, (datetime, timedelta)))')])}))
+    raises={'ValueError': Raises(post=[('only-None-or-untyped', f'value is None or not isinstance(value, {HAS_TYPE})')])}))
+cimtype_array = Contract(
+    T + 'cimtype', returns=Str,
+    ensures=[('type-of-the-first-element', f"len(obj) > 0 and result == {TYPE_OF('obj[0]')}")],
+    raises={'ValueError': Raises(post=[('only-empty-array', 'len(obj) == 0')]), 'TypeError': Raises()},
+    notes='cimtype() of a list, as proved by the array contract above')
 CONTRACTS.append(Contract(
-    O + '_infer_is_array', params={'value': Union(NoneT, ListOf('int'), ListOf('str'), Str, Int, Bool, Ref('Uint8'), TupleOf(Int, Int))},
+    O + '_infer_type', label='array', params={'value': ListOf(ELEM), 'element_kind': Str, 'element_name': Str},
+    callees={'cimtype': cimtype_array},
+    ensures=[('type-of-the-first-element', f"len(value) > 0 and result == {TYPE_OF('value[0]')}")],
+    raises={'ValueError': Raises()}))        # empty array, or a first element without CIM type (TypeError is converted)
+CONTRACTS.append(Contract(
+    O + '_infer_is_array',
+    params={'value': Union(NoneT, ListOf('int'), ListOf('str'), Str, Int, Bool, Ref('Uint8'), TupleOf(Int, Int))},
     ensures=[('list-iff-array', 'result == isinstance(value, list)'), ('None-is-scalar', 'implies(value is None, result is False)')],
     raises={}))
 
-ANY_TYPE = Union(*[Lit(n) for n in TYPE_CLASS])
+# ================================================================ 2. cimvalue() for the non-integer types
 CONTRACTS.append(Contract(
     O + 'cimvalue', label='None has every type', params={'value': NoneT, 'type': Union(Str, NoneT)},
     ensures=[('None-stays-None', 'result is None')], raises={}))
 CONTRACTS.append(Contract(
-    O + 'cimvalue', label="type 'boolean'", params={'value': Union(Bool, Int, Str, TupleOf(), TupleOf(Int), Ref('Uint8')), 'type': Lit('boolean')},
+    O + 'cimvalue', label="type 'boolean'",
+    params={'value': Union(Bool, Int, Str, TupleOf(), TupleOf(Int), Ref('Uint8')), 'type': Lit('boolean')},
     ensures=[('result-is-of-the-named-CIM-type', 'isinstance(result, bool)'),
-             ('python-truth-value', 'result == bool(value)')],
+             # "converted to bool using the standard Python truth testing procedure"
+             ('a-bool-is-kept', 'implies(isinstance(value, bool), result == value)'),
+             ('number-true-iff-nonzero', 'implies(isinstance(value, int) and not isinstance(value, bool), result == (intval(value) != 0))'),
+             ('text-true-iff-nonempty', "implies(isinstance(value, str), result == (value != ''))"),
+             ('tuple-true-iff-nonempty', 'implies(isinstance(value, tuple), result == (len(value) > 0))')],
     raises={}))
-for tn in ('string', 'char16'):
+for _tn in ('string', 'char16'):
     CONTRACTS.append(Contract(
-        O + 'cimvalue', label=f"type '{tn}'", params={'value': Union(Str, Ref('Char16')), 'type': Lit(tn)},
-        ensures=[('result-is-of-the-named-CIM-type', 'isinstance(result, str)'),
-                 ('value-kept', 'result == value')],
+        O + 'cimvalue', label=f"type '{_tn}'", params={'value': Union(Str, Ref('Char16')), 'type': Lit(_tn)},
+        ensures=[('result-is-of-the-named-CIM-type', 'isinstance(result, str)'), ('value-kept', 'result == value')],
         raises={}))
+# known finding string-type-stores-nonstring-value, deductively: cimvalue(0, 'string') returns the int 0
+REFUTED_ON_THE_UNCHANGED_TREE.append(Contract(
+    O + 'cimvalue', label="type 'string' for a non-string value",
+    params={'value': Union(Str, Int, Bool, Ref('Uint8')), 'type': Lit('string')},
+    ensures=[('result-is-of-the-named-CIM-type', 'isinstance(result, str)')],
+    raises={'ValueError': Raises(), 'TypeError': Raises()}))
 
 dt_init_stub = Contract(T + 'CIMDateTime.__init__', raises={'ValueError': Raises(), 'TypeError': Raises()}, trusted=True,
                         notes='CIMDateTime(x): ValueError / TypeError only (its string side is under contract below)')
@@ -97,11 +146,12 @@ CONTRACTS.append(Contract(
     ensures=[('result-is-of-the-named-CIM-type', 'isinstance(result, CIMDateTime)'),
              ('a-CIMDateTime-is-passed-through', 'implies(isinstance(value, CIMDateTime), result is value)')],
     raises={'ValueError': Raises(), 'TypeError': Raises()}))
-from_uri_stub = Contract(O + 'CIMInstanceName.from_wbem_uri', returns=Ref('CIMInstanceName'), raises={'ValueError': Raises()}, trusted=True,
-                         notes='CIMInstanceName.from_wbem_uri(str): a CIMInstanceName or ValueError (C07)')
+from_uri_stub = Contract(O + 'CIMInstanceName.from_wbem_uri', returns=Ref('CIMInstanceName'), raises={'ValueError': Raises()},
+                         trusted=True, notes='CIMInstanceName.from_wbem_uri(str): a CIMInstanceName or ValueError (C07)')
 CONTRACTS.append(Contract(
     O + 'cimvalue', label="type 'reference'",
-    params={'value': Union(Str, Ref('CIMInstanceName'), Ref('CIMClassName'), Int, Bool, Ref('CIMInstance'), Ref('Uint8'), TupleOf(Str)), 'type': Lit('reference')},
+    params={'value': Union(Str, Ref('CIMInstanceName'), Ref('CIMClassName'), Int, Bool, Ref('CIMInstance'), Ref('Uint8'), TupleOf(Str)),
+            'type': Lit('reference')},
     callees={'from_wbem_uri': from_uri_stub},
     ensures=[('result-is-of-the-named-CIM-type', 'isinstance(result, (CIMInstanceName, CIMClassName))'),
              ('paths-are-passed-through', 'implies(isinstance(value, (CIMInstanceName, CIMClassName)), result is value)'),
@@ -109,59 +159,73 @@ CONTRACTS.append(Contract(
     raises={'ValueError': Raises(post=[('only-text', 'isinstance(value, str)')]),
             'TypeError': Raises(post=[('only-other-types', 'not isinstance(value, (str, CIMInstanceName, CIMClassName))')])}))
 
-cimvalue_uint8 = Contract(O + 'cimvalue', returns=Opt(Ref('Uint8')),
-                          ensures=[('item-typed', 'implies(value is None, result is None) and implies(value is not None, '
-                                    'isinstance(result, Uint8) and intval(result) == intval(value) and 0 <= intval(result) <= 255)')],
-                          raises={'ValueError': Raises(post=[('only-out-of-range', 'value is not None and (intval(value) < 0 or intval(value) > 255)')])},
-                          notes="cimvalue(int or None, 'uint8') as proved in C06.py plus the None contract above")
+cimvalue_uint8 = Contract(
+    O + 'cimvalue', returns=Opt(Ref('Uint8')),
+    ensures=[('item-typed', 'implies(value is None, result is None) and implies(value is not None, '
+              'isinstance(result, Uint8) and intval(result) == intval(value) and 0 <= intval(result) <= 255)')],
+    raises={'ValueError': Raises(post=[('only-out-of-range', 'value is not None and (intval(value) < 0 or intval(value) > 255)')])},
+    notes="cimvalue(int or None, 'uint8') as proved in C06.py plus the None contract above")
+# "itemwise: result[i] == cimvalue(value[i], type)" is not provable: the comprehension model gives every element the same
+# callee result (DESIGN 11.4); what is proved: a new list of the same length whose items are None or of the item type.
 CONTRACTS.append(Contract(
     O + 'cimvalue', label="array of 'uint8'",
-    params={'value': ListOf(Opt(Int)), 'type': Lit('uint8')},
-    callees={'cimvalue': cimvalue_uint8},
-    ensures=[('same-length', 'len(result) == len(value)'),
-             ('a-new-list', 'result is not value'),
+    params={'value': ListOf(Opt(Int)), 'type': Lit('uint8')}, callees={'cimvalue': cimvalue_uint8},
+    ensures=[('same-length', 'len(result) == len(value)'), ('a-new-list', 'result is not value'),
              ('items-are-None-or-of-the-item-type', 'forall(lambda i: result[i] is None or isinstance(result[i], Uint8), 0, len(result))')],
     raises={'ValueError': Raises()}))
 CONTRACTS.append(Contract(
     O + 'cimvalue', label='type inferred (None)',
-    params={'value': Union(Ref('Uint8'), Ref('Sint64'), Ref('Real32'), Ref('CIMDateTime'), Str, Bool, Ref('CIMInstanceName'), Int, Float), 'type': NoneT},
+    params={'value': Union(Ref('Uint8'), Ref('Sint64'), Ref('Real32'), Ref('CIMDateTime'), Str, Bool, Ref('CIMInstanceName'), Int, Float),
+            'type': NoneT},
+    callees={'CIMDateTime.__init__': dt_init_stub},
     ensures=[('a-CIM-typed-value-is-returned-as-it-is', 'result is value'),
              ('not-a-python-number', 'isinstance(value, (CIMType, str, bool, CIMInstanceName))')],
     raises={'TypeError': Raises(post=[('only-python-numbers', 'isinstance(value, (int, float)) and not isinstance(value, (CIMType, bool))')])}))
 # real32/real64: only the pass-through of a value that already has the type (construction from float/int/str is float territory:
 # the engine has no model of float-derived classes - "raises:TypeError@type_obj(value)" is its answer for Real32(value))
-for tn, cls in (('real32', 'Real32'), ('real64', 'Real64')):
+for _tn, _cls in (('real32', 'Real32'), ('real64', 'Real64')):
     CONTRACTS.append(Contract(
-        O + 'cimvalue', label=f"type '{tn}' (value of the type)", params={'value': Ref(cls), 'type': Lit(tn)},
+        O + 'cimvalue', label=f"type '{_tn}' (value of the type)", params={'value': Ref(_cls), 'type': Lit(_tn)},
         ensures=[('a-value-of-the-type-is-passed-through', 'result is value')], raises={}))
-REFUTED_ON_THE_UNCHANGED_TREE = []
-REFUTED_ON_THE_UNCHANGED_TREE.append(Contract(
-    O + 'cimvalue', label="type 'string' for a non-string value",
-    params={'value': Union(Str, Int, Bool, Ref('Uint8')), 'type': Lit('string')},
-    ensures=[('result-is-of-the-named-CIM-type', 'isinstance(result, str)')],
-    raises={'ValueError': Raises(), 'TypeError': Raises()}))
 
 
-# ---------------------------------------------------------------- DSP0004 datetime languages (5.2.4, transcribed)
+# ================================================================ 3. DSP0004 datetime languages (5.2.4, transcribed)
 # timestamp  yyyymmddhhmmss.mmmmmmsutc   s = '+' | '-', utc = three digits (minutes), 25 characters
 # interval   ddddddddhhmmss.mmmmmm:000   25 characters
 # "Fields that are not significant shall be replaced with asterisks ... only for an adjacent set of fields starting with
 # the least significant one (mmmmmm); the granularity is the entire field, except mmmmmm (single digits); the UTC offset
 # shall not contain asterisks."
+TS_WIDTHS, IV_WIDTHS = (4, 2, 2, 2, 2, 2), (8, 2, 2, 2)
+
+
+def legal_precisions(widths):
+    """string indexes at which the asterisks may start: every field boundary and every microsecond digit"""
+    out, p = [], 0
+    for w in widths:
+        out.append(p)
+        p += w
+    return out + list(range(15, 21))
+
+
+def body_shape(prec):
+    """(number of digits before the asterisks, literal rest of the 21 body characters) for a legal precision, None = none"""
+    if prec is None:
+        return None
+    if prec >= 15:
+        return prec - 1, '*' * (21 - prec)              # 14 digits, '.', prec-15 digits ; stars
+    return prec, '*' * (14 - prec) + '.' + '*' * 6
+
+
 def _bodies(widths):
-    """the 21 body characters: digits, then asterisks from a field boundary (or a microsecond digit) to the end"""
-    total = sum(widths)                                   # 14
-    alts = [r'[0-9]{%d}\.[0-9]{6}' % total]
-    alts += [r'[0-9]{%d}\.[0-9]{%d}\*{%d}' % (total, k, 6 - k) for k in range(5, 0, -1)]
-    alts += [r'[0-9]{%d}\.\*{6}' % total]
-    start = total
-    for w in reversed(widths):
-        start -= w
-        alts.append((r'[0-9]{%d}' % start if start else '') + r'\*{%d}\.\*{6}' % (total - start))
+    alts = [r'[0-9]{14}\.[0-9]{6}']
+    for p in legal_precisions(widths):
+        if p >= 15:
+            alts.append(r'[0-9]{14}\.' + (r'[0-9]{%d}' % (p - 15) if p > 15 else '') + r'\*{%d}' % (21 - p))
+        else:
+            alts.append((r'[0-9]{%d}' % p if p else '') + r'\*{%d}\.\*{6}' % (14 - p))
     return '(?:' + '|'.join(alts) + ')'
 
 
-TS_WIDTHS, IV_WIDTHS = (4, 2, 2, 2, 2, 2), (8, 2, 2, 2)
 TS_DSP0004 = _bodies(TS_WIDTHS) + r'[+-][0-9]{3}'
 IV_DSP0004 = _bodies(IV_WIDTHS) + r':000'
 # the same without the asterisk rules: what the two patterns of the class are documented to stand for
@@ -192,8 +256,7 @@ def _dt_patterns(repo):
 
 def _mk_replay(s, fn):
     def replay(model):
-        w = model.eval(s, model_completion=True).as_string()
-        return fn(w)
+        return fn(model.eval(s, model_completion=True).as_string())
     return replay
 
 
@@ -274,46 +337,35 @@ def lemma_datetime_patterns_accept_only_the_DSP0004_shape(repo):
 LEMMAS = [lemma_datetime_patterns_accept_DSP0004, lemma_interval_pattern_shape]
 REFUTED_LEMMAS_ON_THE_UNCHANGED_TREE = [lemma_datetime_patterns_accept_only_the_DSP0004_shape]
 
-import os as _os
-if _os.environ.get('C06_DT_WITH_REFUTED'):        # to reproduce the refutations: C06_DT_WITH_REFUTED=1 ./check C06 -v
-    CONTRACTS.extend(REFUTED_ON_THE_UNCHANGED_TREE)
-    LEMMAS.extend(REFUTED_LEMMAS_ON_THE_UNCHANGED_TREE)
-
+# ================================================================ 4. CIMDateTime: the string side
+# (the engine does not mangle private names: the three slots are the fields __precision / __timedelta / __datetime)
 DT_OBJ = Obj('CIMDateTime', __precision=Opt(Int), __timedelta=Opt(Ref('datetime.timedelta')), __datetime=Opt(Ref('datetime.datetime')))
 CONTRACTS.append(Contract(T + 'CIMDateTime.precision', params={'self': DT_OBJ},
                           ensures=[('stored-precision', 'result is self.__precision')], raises={}))
 CONTRACTS.append(Contract(T + 'CIMDateTime.is_interval', params={'self': DT_OBJ},
                           ensures=[('interval-iff-a-timedelta-is-held', 'result == (self.__timedelta is not None)')], raises={}))
+
+# ---- _to_int: "Convert value_str into an integer, replacing right-consecutive asterisks with rep_digit, and an all-asterisk
+# value with min_value."  The callers hand over the groups of the two patterns: 2, 4 or 8 characters with rep_digit None,
+# 6 characters with rep_digit '0'.
 TO_INT = dict(value_str=Str, min_value=Int, field_name=Str, dtarg=Str)
-for w in (2, 4, 8):
+for _w in (2, 4, 8):
     CONTRACTS.append(Contract(
-        T + 'CIMDateTime._to_int', label=f'whole field of {w} characters (rep_digit None)',
+        T + 'CIMDateTime._to_int', label=f'whole field of {_w} characters (rep_digit None)',
         params=dict(TO_INT, rep_digit=Lit(None)),
-        requires=[f"inre(value_str, '[0-9*]{{{w}}}')"],
+        requires=[f"inre(value_str, '[0-9*]{{{_w}}}')"],
         ensures=[('digits-give-their-value', "implies('*' not in value_str, result == str2int(value_str, 10))"),
                  ('all-asterisks-give-the-minimum', "implies('*' in value_str, result == min_value and inre(value_str, '[*]+'))")],
         raises={'ValueError': Raises(post=[('only-partly-asterisked', "not inre(value_str, '[0-9]+|[*]+')")])},
     ))
-
-datetime_stub = Contract('external::datetime.datetime',
-                         sig=['year', 'month', 'day', 'hour=0', 'minute=0', 'second=0', 'microsecond=0', 'tzinfo=None'],
-                         returns=Ref('datetime.datetime'), raises={'ValueError': Raises()}, trusted=True,
-                         notes='datetime.datetime(ints..., tzinfo): a datetime object or ValueError (field out of range)')
-timedelta_stub = Contract('external::datetime.timedelta',
-                          sig=['days=0', 'seconds=0', 'microseconds=0', 'milliseconds=0', 'minutes=0', 'hours=0', 'weeks=0'],
-                          returns=Ref('datetime.timedelta'), raises={}, trusted=True,
-                          notes='datetime.timedelta(days<10**8, hours<100, minutes<100, seconds<100, microseconds<10**6) does not raise '
-                                '(OverflowError needs |days| > 999999999)')
-to_int_c = Contract(
-    T + 'CIMDateTime._to_int', returns=Int,
-    requires=[('a-field-of-digits-or-asterisks',
-               "inre(value_str, '[0-9*]{2}|[0-9*]{4}|[0-9*]{8}') if rep_digit is None else (rep_digit == '0' and inre(value_str, '[0-9*]{6}'))")],
-    raises={'ValueError': Raises(post=[('only-misplaced-asterisks',
-                                        "not inre(value_str, '[0-9]+|[*]+') if rep_digit is None else not inre(value_str, '[0-9]*[*]*')")])},
-    notes='_to_int as proved above for the field widths 2, 4, 8 (whole-field asterisks) and 6 (digit granularity)')
+for _k in range(0, 7):
+    CONTRACTS.append(Contract(
+        T + 'CIMDateTime._to_int', label=f"microseconds with {_k} significant digits (rep_digit '0')",
+        params=dict(TO_INT, rep_digit=Lit('0')), ghosts={'g_digits': Str},
+        requires=[f"inre(g_digits, '[0-9]{{{_k}}}')", f"value_str == g_digits + {'*' * (6 - _k)!r}"],
+        ensures=[('accepted', 'True')] + ([('digits-give-their-value', "result == str2int(old(value_str), 10)")] if _k == 6 else []),
+        raises={}))
 CONTRACTS.append(Contract(
-    T + 'CIMDateTime.__init__', label='any string',
-    params={'self': Obj('CIMDateTime'), 'dtarg': Str},
-    callees={'datetime.datetime': datetime_stub, 'datetime.timedelta': timedelta_stub, '_to_int': to_int_c},
-    ensures=[('x', 'True')],
-    raises={'ValueError': Raises()}))
+    T + 'CIMDateTime._to_int', label='any text',
+    params=dict(TO_INT, rep_digit=Union(NoneT, Lit('0'))),
+    ensures=[('total', 'True')], raises={'ValueError': Raises()}))
